@@ -1,0 +1,119 @@
+//go:build verif
+
+package builder
+
+// Contracts for the deductive verifier in /verif (comment-only; build tag verif).
+
+//@ func builder.DeriveKey
+//@   requires keyHash != nil
+//@   ensures forall k :: 0 <= k && k < 16 ==> result[k] == keyHash[k]
+//@   modifies nothing
+
+//@ func builder.(*GCSBuilder).Key
+//@   ensures b.err != nil ==> err == b.err
+//@   ensures b.err == nil ==> err == nil && forall k :: 0 <= k && k < 16 ==> result0[k] == b.key[k]
+//@   modifies nothing
+
+//@ func builder.(*GCSBuilder).SetKey
+//@   ensures result == b && b.err == old(b.err) && b.p == old(b.p) && b.m == old(b.m) && b.data == old(b.data)
+//@   ensures old(b.err) == nil ==> forall k :: 0 <= k && k < 16 ==> b.key[k] == key[k]
+//@   ensures old(b.err) != nil ==> forall k :: 0 <= k && k < 16 ==> b.key[k] == old(b.key[k])
+//@   modifies b.key
+
+//@ func builder.(*GCSBuilder).SetKeyFromHash
+//@   requires keyHash != nil
+//@   ensures result == b && b.err == old(b.err) && b.p == old(b.p) && b.m == old(b.m) && b.data == old(b.data)
+//@   ensures old(b.err) == nil ==> forall k :: 0 <= k && k < 16 ==> b.key[k] == old(keyHash[k])
+//@   modifies b.key
+
+//@ func builder.(*GCSBuilder).SetP
+//@   ensures result == b && b.m == old(b.m) && b.data == old(b.data)
+//@   ensures old(b.err) != nil ==> b.err == old(b.err) && b.p == old(b.p)
+//@   ensures old(b.err) == nil && p > 32 ==> b.err != nil && b.p == old(b.p)
+//@   ensures old(b.err) == nil && p <= 32 ==> b.err == nil && b.p == p
+//@   modifies b.p, b.err
+
+//@ func builder.(*GCSBuilder).SetM
+//@   ensures result == b && b.p == old(b.p) && b.data == old(b.data)
+//@   ensures old(b.err) != nil ==> b.err == old(b.err) && b.m == old(b.m)
+//@   ensures old(b.err) == nil && m > 4294967295 ==> b.err != nil && b.m == old(b.m)
+//@   ensures old(b.err) == nil && m <= 4294967295 ==> b.err == nil && b.m == m
+//@   modifies b.m, b.err
+
+//@ func builder.(*GCSBuilder).Preallocate
+//@   ensures result == b && b.err == old(b.err) && b.p == old(b.p) && b.m == old(b.m)
+//@   ensures old(b.err) == nil ==> b.data != nil
+//@   ensures old(b.data) != nil ==> b.data == old(b.data)
+//@   modifies b.data
+
+//@ func builder.(*GCSBuilder).AddEntry
+//@   requires b.err != nil || b.data != nil
+//@   ensures result == b && b.err == old(b.err) && b.p == old(b.p) && b.m == old(b.m) && b.data == old(b.data)
+//@   modifies *b.data
+
+//@ func builder.(*GCSBuilder).AddHash
+//@   requires hash != nil && (b.err != nil || b.data != nil)
+//@   ensures result == b && b.err == old(b.err) && b.p == old(b.p) && b.m == old(b.m) && b.data == old(b.data)
+//@   ensures old(b.err) == nil ==> $calls_AddEntry == 1
+//@   modifies *b.data
+//@   assert after AddEntry#1: $arg0 == b && len($arg1) == 32 && forall k :: 0 <= k && k < 32 ==> $arg1[k] == hash[k]
+
+//@ func builder.(*GCSBuilder).AddEntries
+//@   requires b.err != nil || b.data != nil
+//@   ensures result == b && b.err == old(b.err) && b.p == old(b.p) && b.m == old(b.m) && b.data == old(b.data)
+//@   ensures old(b.err) == nil ==> $calls_AddEntry == len(data)
+//@   modifies *b.data
+//@   loop 1 invariant b.err == nil && b.data != nil && b.data == old(b.data) && b.p == old(b.p) && b.m == old(b.m) && $calls_AddEntry == $i
+//@   assert after AddEntry#1: $arg0 == b && sameobj($arg1, data[$i1]) && len($arg1) == len(data[$i1])
+
+//@ func builder.(*GCSBuilder).Build
+//@   ensures b.err != nil ==> result0 == nil && err == b.err && $calls_BuildGCSFilter == 0
+//@   ensures b.err == nil && (b.p == 0 || b.m == 0) ==> result0 == nil && err != nil && $calls_BuildGCSFilter == 0
+//@   ensures b.err == nil && b.p != 0 && b.m != 0 ==> $calls_BuildGCSFilter == 1 && result0 == $ret0_BuildGCSFilter#1 && err == $ret1_BuildGCSFilter#1
+//@   assert after BuildGCSFilter#1: $arg0 == b.p && $arg1 == b.m && (forall k :: 0 <= k && k < 16 ==> $arg2[k] == b.key[k])
+
+//@ func builder.WithKeyPNM
+//@   ensures result != nil && fresh(result)
+//@   ensures p <= 32 && m <= 4294967295 ==> result.err == nil && result.p == p && result.m == m && result.data != nil && forall k :: 0 <= k && k < 16 ==> result.key[k] == key[k]
+//@   ensures p > 32 || m > 4294967295 ==> result.err != nil
+
+//@ func builder.WithKeyPM
+//@   ensures $calls_WithKeyPNM == 1 && result == $ret_WithKeyPNM#1
+//@   assert after WithKeyPNM#1: $arg1 == p && $arg2 == 0 && $arg3 == m && forall k :: 0 <= k && k < 16 ==> $arg0[k] == key[k]
+
+//@ func builder.WithKey
+//@   ensures $calls_WithKeyPNM == 1 && result == $ret_WithKeyPNM#1
+//@   assert after WithKeyPNM#1: $arg1 == 19 && $arg2 == 0 && $arg3 == 784931 && forall k :: 0 <= k && k < 16 ==> $arg0[k] == key[k]
+
+//@ func builder.WithKeyHashPNM
+//@   requires keyHash != nil
+//@   ensures result != nil && fresh(result)
+//@   ensures p <= 32 && m <= 4294967295 ==> result.err == nil && result.p == p && result.m == m && result.data != nil && forall k :: 0 <= k && k < 16 ==> result.key[k] == keyHash[k]
+//@   ensures $calls_WithKeyPNM == 1 && $calls_DeriveKey == 1 && result == $ret_WithKeyPNM#1
+//@   assert after DeriveKey#1: $arg0 == keyHash
+//@   assert after WithKeyPNM#1: $arg1 == p && $arg2 == n && $arg3 == m && forall k :: 0 <= k && k < 16 ==> $arg0[k] == keyHash[k]
+
+//@ func builder.WithKeyHashPM
+//@   requires keyHash != nil
+//@   ensures $calls_WithKeyHashPNM == 1 && result == $ret_WithKeyHashPNM#1
+//@   assert after WithKeyHashPNM#1: $arg0 == keyHash && $arg1 == p && $arg2 == 0 && $arg3 == m
+
+//@ func builder.WithKeyHash
+//@   requires keyHash != nil
+//@   ensures result != nil && fresh(result) && result.err == nil && result.p == 19 && result.m == 784931 && result.data != nil && forall k :: 0 <= k && k < 16 ==> result.key[k] == keyHash[k]
+//@   ensures $calls_WithKeyHashPNM == 1 && result == $ret_WithKeyHashPNM#1
+//@   assert after WithKeyHashPNM#1: $arg0 == keyHash && $arg1 == 19 && $arg2 == 0 && $arg3 == 784931
+
+//@ func builder.GetFilterHash
+//@   requires filter != nil
+//@   ensures $calls_NBytes == 1
+//@   ensures $ret1_NBytes#1 == nil ==> $calls_DoubleHashH == 1
+//@   assert after NBytes#1: $arg0 == filter
+//@   assert after DoubleHashH#1: sameobj($arg0, $ret0_NBytes#1) && len($arg0) == len($ret0_NBytes#1) && $arg0.off == $ret0_NBytes#1.off
+
+//@ func builder.MakeHeaderForFilter
+//@   requires filter != nil
+//@   ensures $calls_GetFilterHash == 1
+//@   ensures $ret1_GetFilterHash#1 == nil ==> $calls_DoubleHashH == 1
+//@   assert after GetFilterHash#1: $arg0 == filter
+//@   assert after DoubleHashH#1: len($arg0) == 64 && (forall k :: 0 <= k && k < 32 ==> $arg0[k] == filterHash[k]) && (forall k :: 0 <= k && k < 32 ==> $arg0[32 + k] == prevHeader[k])
